@@ -4,6 +4,7 @@ import (
 	"bytes"
 	"fmt"
 	mail "github.com/wneessen/go-mail"
+	"io"
 	"strings"
 	"testing"
 
@@ -26,6 +27,166 @@ type c01Case struct {
 	// number Reencode through Part.SetEncoding and renders again; the second rendering is judged like
 	// the first, against the new encoding.
 	Reencode int `json:"reencode,omitempty"`
+	// Edits: builder calls that change what was added earlier (the lists of files, single parts) made
+	// after the program ran and before the first render; the model follows every edit.
+	Edits []c01Edit `json:"edits,omitempty"`
+}
+
+// c01Edit is one call of UnsetAllAttachments / UnsetAllEmbeds / UnsetAllParts / SetAttachments /
+// SetEmbeds (with a permutation or a sub-list of what GetAttachments / GetEmbeds hand out),
+// Part.Delete / SetContentType / SetCharset / SetContent / SetWriteFunc on a part handed out by GetParts,
+// or Msg.SetBoundary.
+type c01Edit struct {
+	Kind string `json:"kind"`
+	Idx  int    `json:"idx,omitempty"`
+	Arg  string `json:"arg,omitempty"`
+}
+
+// applyEdits performs the edits on the message and on the model; it reports false when an edit does not
+// fit the message (the case is skipped) or nothing would be left to render.
+func applyEdits(b *gen.Built, edits []c01Edit) bool {
+	kindRange := func(kind string) (int, int) {
+		lo, hi := -1, -1
+		for i, l := range b.Leaves {
+			if l.Kind == kind {
+				if lo < 0 {
+					lo = i
+				}
+				hi = i + 1
+			}
+		}
+		if lo < 0 {
+			return 0, 0
+		}
+		return lo, hi
+	}
+	// entries of GetParts() that were deleted by an earlier edit (the library keeps them in the list)
+	deleted := map[int]bool{}
+	for _, e := range edits {
+		m := b.Msg
+		switch e.Kind {
+		case "unset-attachments", "unset-embeds", "unset-files":
+			if e.Kind != "unset-embeds" {
+				m.UnsetAllAttachments()
+			}
+			if e.Kind != "unset-attachments" {
+				m.UnsetAllEmbeds()
+			}
+			if e.Kind == "unset-files" {
+				m.UnsetAllAttachments()
+				m.UnsetAllEmbeds()
+				m.UnsetAllParts()
+			}
+			kept := b.Leaves[:0:0]
+			for _, l := range b.Leaves {
+				if l.Kind == "attach" && e.Kind != "unset-embeds" || l.Kind == "embed" && e.Kind != "unset-attachments" {
+					continue
+				}
+				kept = append(kept, l)
+			}
+			b.Leaves = kept
+		case "reverse-attachments", "reverse-embeds", "drop-first-attachment", "drop-last-embed":
+			kind := "attach"
+			if strings.HasSuffix(e.Kind, "embeds") || strings.HasSuffix(e.Kind, "embed") {
+				kind = "embed"
+			}
+			lo, hi := kindRange(kind)
+			if hi-lo < 1 {
+				return false
+			}
+			var files []*mail.File
+			if kind == "attach" {
+				files = m.GetAttachments()
+			} else {
+				files = m.GetEmbeds()
+			}
+			if len(files) != hi-lo {
+				return false
+			}
+			nf := append([]*mail.File{}, files...)
+			nl := append([]gen.Leaf{}, b.Leaves[lo:hi]...)
+			switch {
+			case strings.HasPrefix(e.Kind, "reverse"):
+				for i, j := 0, len(nf)-1; i < j; i, j = i+1, j-1 {
+					nf[i], nf[j] = nf[j], nf[i]
+					nl[i], nl[j] = nl[j], nl[i]
+				}
+			case e.Kind == "drop-first-attachment":
+				nf, nl = nf[1:], nl[1:]
+			default:
+				nf, nl = nf[:len(nf)-1], nl[:len(nl)-1]
+			}
+			if kind == "attach" {
+				m.SetAttachments(nf)
+			} else {
+				m.SetEmbeds(nf)
+			}
+			b.Leaves = append(append(append([]gen.Leaf{}, b.Leaves[:lo]...), nl...), b.Leaves[hi:]...)
+		case "part-delete", "part-ctype", "part-charset", "part-content", "part-writefunc":
+			lo, hi := kindRange("part")
+			if e.Idx < 0 || e.Idx >= hi-lo {
+				return false
+			}
+			parts := m.GetParts()
+			// GetParts hands out every part ever added, deleted ones included: find the e.Idx-th live one
+			pi, seen := -1, 0
+			for i := 0; i < len(parts); i++ {
+				if deleted[i] {
+					continue
+				}
+				if seen == e.Idx {
+					pi = i
+					break
+				}
+				seen++
+			}
+			if pi < 0 {
+				return false
+			}
+			l := &b.Leaves[lo+e.Idx]
+			switch e.Kind {
+			case "part-delete":
+				parts[pi].Delete()
+				deleted[pi] = true
+				b.Leaves = append(append([]gen.Leaf{}, b.Leaves[:lo+e.Idx]...), b.Leaves[lo+e.Idx+1:]...)
+			case "part-ctype":
+				parts[pi].SetContentType(mail.ContentType(e.Arg))
+				l.MediaType = e.Arg
+			case "part-charset":
+				parts[pi].SetCharset(mail.Charset(e.Arg))
+				l.Charset = e.Arg
+			case "part-content":
+				parts[pi].SetContent(e.Arg)
+				l.Content = []byte(e.Arg)
+			case "part-writefunc":
+				content := []byte(e.Arg)
+				parts[pi].SetWriteFunc(func(w io.Writer) (int64, error) {
+					n, err := w.Write(content)
+					return int64(n), err
+				})
+				l.Content = content
+			}
+		case "set-boundary":
+			m.SetBoundary(e.Arg)
+		default:
+			return false
+		}
+	}
+	return len(b.Leaves) > 0
+}
+
+func leafCounts(ls []gen.Leaf) (np, ne, na int) {
+	for _, l := range ls {
+		switch l.Kind {
+		case "part":
+			np++
+		case "embed":
+			ne++
+		default:
+			na++
+		}
+	}
+	return
 }
 
 func c01Run(c c01Case) []*core.Violation {
@@ -41,6 +202,16 @@ func c01Run(c c01Case) []*core.Violation {
 			rec.Class("after-a-failed-render-of-another-message")
 		}
 	}
+	if len(c.Edits) > 0 {
+		if !applyEdits(b, c.Edits) {
+			rec.Skip()
+			return nil
+		}
+		rec.Class("edited-after-building")
+		for _, e := range c.Edits {
+			rec.Class("edit:" + e.Kind)
+		}
+	}
 	var buf bytes.Buffer
 	n, err := b.Msg.WriteTo(&buf)
 	if err != nil {
@@ -51,7 +222,7 @@ func c01Run(c c01Case) []*core.Violation {
 		vs = append(vs, core.V("count", "WriteTo returned %d, output has %d bytes", n, buf.Len()))
 	}
 	root := mimeread.Parse(buf.Bytes())
-	np, ne, na := len(c.Spec.Parts), len(c.Spec.Embeds), len(c.Spec.Attachments)
+	np, ne, na := leafCounts(b.Leaves)
 	lv := oracle.CompareLeaves(root, b.Leaves, np, ne, na, oracle.LeafOpts{NoDesc: true})
 	vs = append(vs, lv...)
 	if len(lv) == 0 {
@@ -123,7 +294,79 @@ func c01Gen(t *rapid.T) c01Case {
 	if rapid.IntRange(0, 5).Draw(t, "priorfail") == 0 {
 		c.PriorFail = rapid.IntRange(1, 4000).Draw(t, "priorfailat")
 	}
+	if c.Reencode == 0 && rapid.IntRange(0, 3).Draw(t, "edited") == 0 {
+		c.Edits = c01GenEdits(t, &c.Spec)
+	}
 	return c
+}
+
+// c01GenEdits draws 1..3 edits that fit the program. Contents and types set through the Part setters come
+// from a small pool that is legal under every transfer encoding C01 generates for text.
+func c01GenEdits(t *rapid.T, spec *gen.MsgSpec) []c01Edit {
+	np, ne, na := len(spec.Parts), len(spec.Embeds), len(spec.Attachments)
+	var out []c01Edit
+	n := rapid.IntRange(1, 3).Draw(t, "nedits")
+	for i := 0; i < n; i++ {
+		var kinds []string
+		if na > 0 {
+			kinds = append(kinds, "reverse-attachments", "drop-first-attachment")
+			if np+ne > 0 {
+				kinds = append(kinds, "unset-attachments")
+			}
+		}
+		if ne > 0 {
+			kinds = append(kinds, "reverse-embeds", "drop-last-embed")
+			if np+na > 0 {
+				kinds = append(kinds, "unset-embeds")
+			}
+		}
+		if np > 0 && ne+na > 0 {
+			kinds = append(kinds, "unset-files")
+		}
+		if np > 0 {
+			kinds = append(kinds, "part-ctype", "part-charset", "part-content", "part-writefunc")
+			if np+ne+na > 1 {
+				kinds = append(kinds, "part-delete")
+			}
+		}
+		if len(kinds) == 0 {
+			break
+		}
+		e := c01Edit{Kind: rapid.SampledFrom(kinds).Draw(t, "editkind")}
+		switch e.Kind {
+		case "unset-attachments":
+			na = 0
+		case "unset-embeds":
+			ne = 0
+		case "unset-files":
+			na, ne = 0, 0
+		case "drop-first-attachment":
+			na--
+		case "drop-last-embed":
+			ne--
+		case "part-delete":
+			e.Idx = rapid.IntRange(0, np-1).Draw(t, "editpart")
+			np--
+		case "part-ctype":
+			e.Idx = rapid.IntRange(0, np-1).Draw(t, "editpart")
+			e.Arg = rapid.SampledFrom([]string{"text/plain", "text/html", "text/x-verif", "application/json"}).Draw(t, "editctype")
+		case "part-charset":
+			e.Idx = rapid.IntRange(0, np-1).Draw(t, "editpart")
+			e.Arg = rapid.SampledFrom([]string{"UTF-8", "ISO-8859-1", "US-ASCII", "ISO-8859-15"}).Draw(t, "editcharset")
+		case "part-content", "part-writefunc":
+			e.Idx = rapid.IntRange(0, np-1).Draw(t, "editpart")
+			e.Arg = rapid.SampledFrom([]string{"", "replaced\r\n", "=3D replaced caf\u00e9 \r\n.\r\n--x\r\nlast", strings.Repeat("r", 100) + "\r\n"}).Draw(t, "editcontent")
+		}
+		if np+ne+na == 0 {
+			break
+		}
+		out = append(out, e)
+	}
+	// a boundary of the caller's own, this time through the setter: only when one multipart level is left
+	if spec.Boundary == "" && strings.Count(gen.ExpectedShape(np, ne, na), "(") == 1 && rapid.IntRange(0, 2).Draw(t, "setboundary") == 0 {
+		out = append(out, c01Edit{Kind: "set-boundary", Arg: rapid.SampledFrom([]string{"vErIf.SeT_BoUnDaRy-42", "=_VerifSetPart_000_01DA.ABCD", "setter(boundary)+specials,/:=?"}).Draw(t, "setboundaryval")})
+	}
+	return out
 }
 
 func c01Describe() {
